@@ -105,3 +105,65 @@ func init() {
 		return vx.RunSched(c, sc, sigOf("C01"))
 	}})
 }
+
+// C01 driver (d): more streams waiting to be accepted than the accept queue holds. The opener writes
+// two messages on each of `streams` new streams before the other side accepts any; then every stream
+// is accepted and read (one reader per stream). Waiting is fine - losing a stream's bytes is not.
+func init() {
+	vx.Register(&vx.Scenario{Name: "mux.backlogged", Prop: "C01", Run: func(c *vx.Ctx) *vx.Report {
+		n := c.PI("streams", 1032)
+		sc := &vrt.Scenario{
+			Opt:      vrt.Options{RandInt: chooseConnOpt(), Delay: true, StepCap: 20000000},
+			Classify: deadlockIs("liveness: threads blocked forever on a healthy session"),
+			Main: func() {
+				r := newMuxRig(rigCfg{conns: 1, unit: 256})
+				r.net.NoTap = true
+				var wg sync.WaitGroup
+				wg.Add(1)
+				vrt.Go("opener", func() {
+					defer wg.Done()
+					for i := 0; i < n; i++ {
+						st, err := r.cli.OpenStream()
+						if err != nil {
+							vrt.Fail("no-error-on-healthy-session", "OpenStream %d: %v", i, err)
+						}
+						st.Write([]byte{byte(i), byte(i >> 8), 1})
+						st.Write([]byte{byte(i), byte(i >> 8), 2})
+					}
+				})
+				quiesce() // the opener has gone as far as it can: the receiving side is waiting on its full accept queue
+				got := make([][]byte, n)
+				seen := 0
+				for seen < n {
+					conn, err := r.srv.Accept()
+					if err != nil {
+						vrt.Fail("no-error-on-healthy-session", "Accept after %d streams: %v", seen, err)
+					}
+					seen++
+					wg.Add(1)
+					vrt.Go("reader", func() {
+						defer wg.Done()
+						b := make([]byte, 6)
+						if _, err := io.ReadFull(conn, b); err != nil {
+							vrt.Fail("no-error-on-healthy-session", "reading an accepted stream: %v", err)
+						}
+						i := int(b[0]) | int(b[1])<<8
+						if i >= n || got[i] != nil {
+							vrt.Fail("bytes-exact", "an accepted stream starts with %x: not the first message of a stream that was opened once", b)
+						}
+						got[i] = b
+					})
+				}
+				wg.Wait()
+				for i := 0; i < n; i++ {
+					want := []byte{byte(i), byte(i >> 8), 1, byte(i), byte(i >> 8), 2}
+					if !bytes.Equal(got[i], want) {
+						vrt.Fail("bytes-exact", "stream %d of %d opened before any was accepted: read %x, written %x", i, n, got[i], want)
+					}
+				}
+				vrt.Observe("streams=%d", n)
+			},
+		}
+		return vx.RunSched(c, sc, sigOf("C01"))
+	}})
+}
